@@ -55,6 +55,18 @@ Definition group := list bytes.
 Definition group_prefix (k : mapper_kind) (g : group) : bytes :=
   fold_left (mapper k) g (mapper k [] []).
 
+(* ---- from a Go object to the identifier that is mapped.
+   router.go ctrlStructName: reflect type string ("*pkg.Type"), split at ".", last element;
+   handlerFuncName: runtime.FuncForPC name ("path/pkg.Func", "path/pkg.(*T).Method" for a method
+   expression, "path/pkg.(*T).Method-fm" for a bound method value), split at ".", last element.
+   Nothing else is removed: a bound method value keeps its "-fm". ---- *)
+Fixpoint after_last (c : byte) (s : bytes) (cur : bytes) : bytes :=
+  match s with
+  | [] => rev cur
+  | x :: r => if beqb x c then after_last c r [] else after_last c r (x :: cur)
+  end.
+Definition object_ident (runtime_name : bytes) : bytes := after_last c_dot runtime_name [].
+
 (* ---- what is registered ---- *)
 Inductive item :=
 | IStruct (sname : bytes) (methods : list (bytes * hid))  (* RouteCall / RoutePush *)
